@@ -32,7 +32,8 @@ func init() {
 			"P-postsort — with an unsorted source, for every SortType constant that requests an order, every path from the enumeration to a return of a non-nil result passes a sort call (or the query is refused with an error). " +
 			"P-truncate — with an unsorted source, 0 < Limit < len(res.Blobs) and any sort but MapSort, every such path truncates res.Blobs by a bounded slice. " +
 			"P-nodup — every corpus enumerator a source is built from hands each blob to the callback at most once as far as its loop structure shows: the callback is invoked (directly or through one same-package helper) inside at most one loop, i.e. one pass over one collection; an invocation nested in two or more loops (several collections, or caller-supplied keys) must be guarded by a look-up in a map made in that function (a 'seen' set), or be a recorded exception (one symbol, one reason). " +
-			"NOT decided: the meaning of each leaf constraint and of the leaf cases of the predicates (e.g. that a camliNodeType attribute constraint only matches that node type), matcher semantics per constraint kind, that the enumerators really enumerate a superset in the claimed order, that a single collection holds each blob once, the sort comparators and which slice is sorted, the Around window arithmetic, MapSort selection, any concrete world or query.",
+			"P-memo — every branch in pkg/search on a map membership test m[k] whose 'found' edge bypasses a matcher call (a call returning bool or (bool, error) that takes k as a blob.Ref and has the matchFn signature, or is a pkg/search function working on a *search such as RelationConstraint.match, or is a helper / local literal that itself makes such a call on the parameter k arrives in) on that same k is a skip guard; today: permanodesChecked in the claim callback of (*RelationConstraint).match. For a memo map local to one invocation, every value that can become a key (the key of each map update, followed through all stores of the variables that feed it, e.g. lastChecked; zero-value resets excluded) must be remembered only where its evaluation completed: the assignment is dominated by the success edge (error result known nil) of a matcher call on that same value, or every path from the assignment to an exit of the callback passes such an edge, except exits that return false from a callback whose enumerators (resolved through phi / bound-method thunks, here Corpus.ForeachClaim and ForeachClaimBack) provably never call it again after false, with the memo consulted nowhere else. A remembered value that no matcher call evaluates, a memo whose map or feeder variables escape, and a guard on a map shared beyond one invocation (could be a traversal visited-set, where marking first is correct) are undecided. Set membership tests keyed by blob refs that bypass no matcher call (dr.started: started-set of the describe traversal; resFromRule: membership filter) are listed as classified, not judged. " +
+			"NOT decided: the meaning of each leaf constraint and of the leaf cases of the predicates (e.g. that a camliNodeType attribute constraint only matches that node type), matcher semantics per constraint kind, that the enumerators really enumerate a superset in the claimed order, that a single collection holds each blob once, that a memoised verdict is still valid for the later occurrence of the key (the memo key captures everything the verdict depends on), memos kept in anything but a map (slices, sorted lists), the sort comparators and which slice is sorted, the Around window arithmetic, MapSort selection, any concrete world or query.",
 		RuleDocs: map[string]string{
 			"P-restrict":        "per planner predicate × Op label: contradiction rule over all acyclic paths — a may-restrict result derived from a recursive call needs Op==and, or Op==or with both operands restricting",
 			"P-nil-operand":     "per planner predicate: recursion on Logical.B only under Op in {and,or,xor} unless the predicate is nil-receiver tolerant",
@@ -42,13 +43,14 @@ func init() {
 			"P-limit":           "per result-losing action in the enumeration callback: on the matcher-error path or under fact cands.sorted",
 			"P-postsort":        "per SortType constant: unsorted source ⇒ sort call (or error) on every path from enumeration to a non-nil result",
 			"P-nodup":           "per corpus enumerator in the source table × callback invocation: loop depth <= 1, or guarded by a local seen-set look-up, or recorded exception",
+			"P-memo":            "per skip guard (map membership test that bypasses a matcher call on its key) in pkg/search × per assignment that can put a key into that memo: the assignment is dominated by the success edge of a matcher call on the same value, or every continuing path from it passes one (exits that provably end the enumeration excepted); other blob-ref sets are classified only",
 			"P-fresh":           "C06's K-inval reported for C08: the generation-stamped sorted-permanode caches behind the sources flagged sorted are invalidated by every live write of a location their order is computed from (generation increment on every such path through Corpus.addBlob), served only on the stamp==generation edge, and the generation only grows",
 			"P-truncate":        "per SortType constant except MapSort: unsorted source and 0<Limit<len ⇒ bounded re-slice of res.Blobs on every path to a non-nil result",
 		},
 		Run:       runC08,
 		DesignRef: "DESIGN.md §4 C08",
-		Technique: "static analysis: exhaustive acyclic-path enumeration over go/ssa with per-path phi resolution and branch facts (contradiction rule on the planner predicates, constant propagation and table agreement on the planner), dominance facts and assumption-pruned reachability in the executor",
-		LevelText: "Decides structural necessary conditions only: the planner predicates combine recursive results soundly for and/or/not/xor; a source is flagged sorted only when its enumerator yields the requested order; every restricted source is guarded by the predicate that justifies it, on the same constraint the matcher is compiled from; results are appended only on a match; results are dropped early only for sorted sources; unsorted sources are post-sorted and truncated; the cached orders the sorted sources enumerate are invalidated by every live write of their inputs. Does not decide matcher semantics, leaf cases of the predicates, enumerator contents/order, comparators, or any concrete query.",
+		Technique: "static analysis: exhaustive acyclic-path enumeration over go/ssa with per-path phi resolution and branch facts (contradiction rule on the planner predicates, constant propagation and table agreement on the planner), dominance facts and assumption-pruned reachability in the executor; for skip-memos: key provenance through variable stores, success-edge dominance / must-pass-through of the matcher call, callback stop-protocol checked in the resolved enumerators",
+		LevelText: "Decides structural necessary conditions only: the planner predicates combine recursive results soundly for and/or/not/xor; a source is flagged sorted only when its enumerator yields the requested order; every restricted source is guarded by the predicate that justifies it, on the same constraint the matcher is compiled from; results are appended only on a match; results are dropped early only for sorted sources; unsorted sources are post-sorted and truncated; the relation matcher's 'already checked' memo remembers a relative only after the matcher really ran on it; the cached orders the sorted sources enumerate are invalidated by every live write of their inputs. Does not decide matcher semantics, leaf cases of the predicates, enumerator contents/order, comparators, or any concrete query.",
 	})
 }
 
@@ -1801,6 +1803,829 @@ func c08RuleExecutor(p *Program, r *Reporter, e *c08Exec, sorts map[int64]string
 }
 
 // ---------------------------------------------------------------------------
+// P-memo: a skip-memo of the matchers may only remember evaluations that were
+// actually carried out.
+//
+// A *skip guard* is a branch on a map membership test m[k] whose "found" edge
+// bypasses a matcher call on that same k which the "not found" edge reaches.
+// Every value that can become a key of m (directly, or through variables that
+// feed the map update, like lastChecked) is a *mark*. A mark of k is sound
+// only if the evaluation it stands for completed: the mark is dominated by a
+// successful matcher call on k, or every path from the mark to an exit of the
+// callback after which the guard can be consulted again passes such a call.
+
+// c08MatchSig is the signature behind pkg/search.matchFn.
+func c08MatchSig(p *Program) *types.Signature {
+	n := p.NamedType(c08Pkg, "matchFn")
+	sig, ok := n.Underlying().(*types.Signature)
+	if !ok {
+		brokenf("anchor unresolved: pkg/search.matchFn is not a function type")
+	}
+	return sig
+}
+
+func c08IsBool(t types.Type) bool {
+	b, ok := t.Underlying().(*types.Basic)
+	return ok && b.Kind() == types.Bool
+}
+
+func c08IsBlobRef(t types.Type) bool {
+	if _, isPtr := t.(*types.Pointer); isPtr {
+		return false
+	}
+	return IsNamed(t, modPrefix+"pkg/blob", "Ref")
+}
+
+// c08VerdictOn: the call asks a matcher for a verdict on blob k — one of its
+// blob.Ref arguments is k and its callee has the matchFn signature (compiled
+// matchers, blobMatches methods, bound or not), or is a pkg/search function
+// working on a *search and returning (bool) or (bool, error), like
+// (*RelationConstraint).match, or is a helper / local literal with such results
+// that itself asks for a verdict on the parameter k is passed as.
+func c08VerdictOn(c CallSite, k ssa.Value, matchSig *types.Signature, depth int) bool {
+	if c.Value() == nil || c.Common().IsInvoke() {
+		return false
+	}
+	sig := c.Common().Signature()
+	if sig == nil {
+		return false
+	}
+	res := sig.Results()
+	switch {
+	case res.Len() == 1 && c08IsBool(res.At(0).Type()):
+	case res.Len() == 2 && c08IsBool(res.At(0).Type()) && isErrorType(res.At(1).Type()):
+	default:
+		return false
+	}
+	ko := originValue(k)
+	var at []int
+	for i, a := range c.Common().Args {
+		if c08IsBlobRef(a.Type()) && originValue(a) == ko {
+			at = append(at, i)
+		}
+	}
+	if len(at) == 0 {
+		return false
+	}
+	if types.Identical(sig, matchSig) {
+		return true
+	}
+	if f := c.Common().StaticCallee(); f != nil && f.Pkg != nil && RelPkg(f.Pkg.Pkg) == c08Pkg {
+		hasSearch := sig.Recv() != nil && IsNamed(sig.Recv().Type(), modPrefix+c08Pkg, "search")
+		for i := 0; i < sig.Params().Len(); i++ {
+			if IsNamed(sig.Params().At(i).Type(), modPrefix+c08Pkg, "search") {
+				hasSearch = true
+			}
+		}
+		if hasSearch {
+			return true
+		}
+	}
+	callee := c.Callee()
+	if callee == nil || callee.Blocks == nil || !InModule(callee) || depth >= 2 {
+		return false
+	}
+	for _, i := range at {
+		if i >= len(callee.Params) {
+			continue
+		}
+		for _, c2 := range CallsIn(callee, false) {
+			if c08VerdictOn(c2, callee.Params[i], matchSig, depth+1) {
+				return true
+			}
+		}
+	}
+	return false
+}
+
+// c08LocalLoad resolves a load that directly follows a store to the same
+// address in its block (no call in between): `*err = t; x = *err` gives t.
+func c08LocalLoad(v ssa.Value) ssa.Value {
+	ld, ok := v.(*ssa.UnOp)
+	if !ok || ld.Op != token.MUL || ld.Block() == nil {
+		return v
+	}
+	ins := ld.Block().Instrs
+	for i := instrIndex(ld) - 1; i >= 0; i-- {
+		switch x := ins[i].(type) {
+		case *ssa.Store:
+			if x.Addr == ld.X {
+				return x.Val
+			}
+		case ssa.CallInstruction:
+			return v
+		}
+	}
+	return v
+}
+
+// c08SuccessAt: every path to block b has passed call e and e's error result,
+// if it has one, is known nil in b.
+func c08SuccessAt(e *ssa.Call, b *ssa.BasicBlock) bool {
+	if e.Block() != b && !e.Block().Dominates(b) {
+		return false
+	}
+	ev, hasErr, discarded := ErrValue(e)
+	if !hasErr {
+		return true
+	}
+	if discarded || ev == nil {
+		return false
+	}
+	for _, f := range FactsAt(b) {
+		cond, val := f.Cond, f.Val
+		for {
+			u, ok := cond.(*ssa.UnOp)
+			if !ok || u.Op != token.NOT {
+				break
+			}
+			cond, val = u.X, !val
+		}
+		bo, ok := cond.(*ssa.BinOp)
+		if !ok || (bo.Op != token.EQL && bo.Op != token.NEQ) {
+			continue
+		}
+		var other ssa.Value
+		switch {
+		case IsNilConst(bo.Y):
+			other = bo.X
+		case IsNilConst(bo.X):
+			other = bo.Y
+		default:
+			continue
+		}
+		if !(sameOrigin(other, ev) || originValue(c08LocalLoad(other)) == ev) {
+			continue
+		}
+		// the fact must have been established after the call
+		if f.At != e.Block() && !e.Block().Dominates(f.At) {
+			continue
+		}
+		if (bo.Op == token.EQL) == val {
+			return true
+		}
+	}
+	return false
+}
+
+// c08Family: fn's outermost enclosing function and all its literals.
+func c08Family(fn *ssa.Function) []*ssa.Function {
+	var out []*ssa.Function
+	var walk func(f *ssa.Function)
+	walk = func(f *ssa.Function) {
+		out = append(out, f)
+		for _, a := range f.AnonFuncs {
+			walk(a)
+		}
+	}
+	walk(TopFunc(fn))
+	return out
+}
+
+// c08MapID identifies the map a Lookup / MapUpdate works on: the variable
+// holding it (also when captured), a field path, or the value's origin.
+// local = the map lives in a variable declared in the function family (a fresh
+// map per invocation of the outermost function).
+func c08MapID(m ssa.Value) (id any, name string, local bool) {
+	if ld, ok := m.(*ssa.UnOp); ok && ld.Op == token.MUL {
+		if cell, ok := varOf(ld.X); ok {
+			if al, isAl := cell.(*ssa.Alloc); isAl {
+				return cell, al.Comment, true
+			}
+			return cell, cell.Name(), false
+		}
+		if ap := AccessPath(m); !strings.HasPrefix(ap, "?") {
+			return ap, ap, false
+		}
+	}
+	o := originValue(m)
+	if ld, ok := o.(*ssa.UnOp); ok && ld.Op == token.MUL {
+		if ap := AccessPath(o); !strings.HasPrefix(ap, "?") {
+			return ap, ap, false
+		}
+	}
+	if lk, ok := o.(*ssa.Lookup); ok { // an inner map of a map of maps
+		_, n, _ := c08MapID(lk.X)
+		return o, n + "[]", false
+	}
+	if ex, ok := o.(*ssa.Extract); ok {
+		if lk, ok := ex.Tuple.(*ssa.Lookup); ok && ex.Index == 0 {
+			_, n, _ := c08MapID(lk.X)
+			return o, n + "[]", false
+		}
+	}
+	if mk, ok := o.(*ssa.MakeMap); ok {
+		return o, "map made in " + mk.Parent().Name(), true
+	}
+	return o, o.Name(), false
+}
+
+// c08MentionsBlobRef: t is blob.Ref or a struct with a blob.Ref field.
+func c08MentionsBlobRef(t types.Type, depth int) bool {
+	if c08IsBlobRef(t) {
+		return true
+	}
+	if st, ok := t.Underlying().(*types.Struct); ok && depth < 2 {
+		for i := 0; i < st.NumFields(); i++ {
+			if c08MentionsBlobRef(st.Field(i).Type(), depth+1) {
+				return true
+			}
+		}
+	}
+	return false
+}
+
+// c08CallDesc names the callee of a verdict call, also when it is a function value.
+func c08CallDesc(c CallSite) string {
+	if c.Common().StaticCallee() != nil {
+		return c.CalleeKey()
+	}
+	if ap := AccessPath(c.Common().Value); !strings.HasPrefix(ap, "?") {
+		return ap + "(...) [" + c.Common().Value.Type().String() + "]"
+	}
+	return "a " + c.Common().Value.Type().String() + " value"
+}
+
+type c08Guard struct {
+	fn         *ssa.Function
+	ifi        *ssa.If
+	lookup     *ssa.Lookup
+	found      *ssa.BasicBlock // successor when the key is in the map
+	miss       *ssa.BasicBlock
+	id         any
+	name       string
+	local      bool
+	setLike    bool
+	bypassed   []CallSite // verdict calls on the key reached only when the key is not in the map
+	foundLeave bool       // the found edge reaches no call at all before leaving
+}
+
+// c08Guards lists the branches of fn on a map membership test.
+func c08Guards(fn *ssa.Function, matchSig *types.Signature) (guards []*c08Guard, otherMapBranches int) {
+	for _, b := range fn.Blocks {
+		if len(b.Instrs) == 0 || len(b.Succs) != 2 || b.Succs[0] == b.Succs[1] {
+			continue
+		}
+		ifi, ok := b.Instrs[len(b.Instrs)-1].(*ssa.If)
+		if !ok {
+			continue
+		}
+		cond, val := ifi.Cond, true
+		for {
+			u, ok := cond.(*ssa.UnOp)
+			if !ok || u.Op != token.NOT {
+				break
+			}
+			cond, val = u.X, !val
+		}
+		var lk *ssa.Lookup
+		switch x := cond.(type) {
+		case *ssa.Lookup:
+			if !x.CommaOk {
+				lk = x
+			}
+		case *ssa.Extract:
+			if l, ok := x.Tuple.(*ssa.Lookup); ok && l.CommaOk && x.Index == 1 {
+				lk = l
+			}
+		}
+		var mt *types.Map
+		if lk != nil {
+			mt, _ = lk.X.Type().Underlying().(*types.Map)
+		}
+		if lk == nil || mt == nil {
+			if DependsOn(ifi.Cond, func(v ssa.Value) bool {
+				l, ok := v.(*ssa.Lookup)
+				if !ok {
+					return false
+				}
+				_, isMap := l.X.Type().Underlying().(*types.Map)
+				return isMap
+			}) {
+				otherMapBranches++
+			}
+			continue
+		}
+		g := &c08Guard{fn: fn, ifi: ifi, lookup: lk}
+		g.found, g.miss = b.Succs[0], b.Succs[1]
+		if !val {
+			g.found, g.miss = g.miss, g.found
+		}
+		g.id, g.name, g.local = c08MapID(lk.X)
+		if c08IsBool(mt.Elem()) {
+			g.setLike = true
+		} else if st, ok := mt.Elem().Underlying().(*types.Struct); ok && st.NumFields() == 0 {
+			g.setLike = true
+		}
+		// within one iteration: do not walk through the guard again (loop back edges)
+		fromFound, fromMiss := c08BlocksFromNotThrough(g.found, b), c08BlocksFromNotThrough(g.miss, b)
+		g.foundLeave = true
+		for fb := range fromFound {
+			for _, in := range fb.Instrs {
+				if _, ok := in.(ssa.CallInstruction); ok {
+					g.foundLeave = false
+				}
+			}
+		}
+		for _, c := range CallsIn(fn, false) {
+			if !c08VerdictOn(c, lk.Index, matchSig, 0) {
+				continue
+			}
+			if fromMiss[c.Block()] && !fromFound[c.Block()] {
+				g.bypassed = append(g.bypassed, c)
+			}
+		}
+		guards = append(guards, g)
+	}
+	return
+}
+
+// c08BlocksFromNotThrough: blocks reachable from s without entering block stop.
+func c08BlocksFromNotThrough(s, stop *ssa.BasicBlock) map[*ssa.BasicBlock]bool {
+	seen := map[*ssa.BasicBlock]bool{}
+	var walk func(b *ssa.BasicBlock)
+	walk = func(b *ssa.BasicBlock) {
+		if b == stop || seen[b] {
+			return
+		}
+		seen[b] = true
+		for _, x := range b.Succs {
+			walk(x)
+		}
+	}
+	walk(s)
+	return seen
+}
+
+type c08Mark struct {
+	site ssa.Instruction // the Store to a feeder variable, or the MapUpdate itself
+	key  ssa.Value
+	via  string
+}
+
+func c08IsZeroConst(v ssa.Value) bool {
+	c, ok := v.(*ssa.Const)
+	return ok && c.Value == nil
+}
+
+// c08Marks finds every value that can become a key of the guard's map.
+func c08Marks(g *c08Guard) (marks []c08Mark, bad string) {
+	seenCell := map[ssa.Value]bool{}
+	var follow func(v ssa.Value, site ssa.Instruction, via string, depth int)
+	follow = func(v ssa.Value, site ssa.Instruction, via string, depth int) {
+		o := originValue(v)
+		if ld, ok := o.(*ssa.UnOp); ok && ld.Op == token.MUL {
+			if cell, ok := varOf(ld.X); ok {
+				al, isAl := cell.(*ssa.Alloc)
+				if !isAl || depth > 4 {
+					bad = "a key of the memo is read from " + cell.Name() + ", whose writers the rule cannot enumerate"
+					return
+				}
+				if seenCell[cell] {
+					return
+				}
+				seenCell[cell] = true
+				if !plainVariable(al) {
+					bad = "the address of variable " + al.Comment + ", which feeds the memo, escapes"
+					return
+				}
+				for _, st := range storesTo(al) {
+					if c08IsZeroConst(st.Val) {
+						continue // reset to the zero value: not a key the guard is asked about
+					}
+					follow(st.Val, st, al.Comment, depth+1)
+				}
+				return
+			}
+		}
+		if c08IsZeroConst(o) {
+			return
+		}
+		marks = append(marks, c08Mark{site, o, via})
+	}
+	for _, f := range c08Family(g.fn) {
+		for _, b := range f.Blocks {
+			for _, in := range b.Instrs {
+				mu, ok := in.(*ssa.MapUpdate)
+				if !ok {
+					continue
+				}
+				if id, _, _ := c08MapID(mu.Map); id != g.id {
+					continue
+				}
+				follow(mu.Key, mu, "", 0)
+			}
+		}
+	}
+	return
+}
+
+// c08MapEscapes: the memo's map value is used for something other than
+// membership tests, updates, nil checks and len — other code could add keys.
+func c08MapEscapes(g *c08Guard) string {
+	cell, ok := g.id.(ssa.Value)
+	if !ok {
+		return "the map is not held in a local variable"
+	}
+	check := func(m ssa.Value) string {
+		refs := m.Referrers()
+		if refs == nil {
+			return ""
+		}
+		for _, rf := range *refs {
+			switch x := rf.(type) {
+			case *ssa.Lookup, *ssa.MapUpdate, *ssa.DebugRef, *ssa.BinOp, *ssa.Range:
+			case *ssa.Call:
+				if b, isB := x.Call.Value.(*ssa.Builtin); isB && (b.Name() == "len" || b.Name() == "delete") {
+					continue
+				}
+				return "the map is passed to " + (CallSite{x.Parent(), x}).CalleeKey()
+			case *ssa.Store:
+				if c, ok := varOf(x.Addr); ok && c == cell {
+					continue
+				}
+				return "the map is stored elsewhere"
+			default:
+				return "the map flows into " + rf.String()
+			}
+		}
+		return ""
+	}
+	if _, isAl := cell.(*ssa.Alloc); !isAl {
+		return check(cell)
+	}
+	for _, f := range c08Family(g.fn) {
+		for _, b := range f.Blocks {
+			for _, in := range b.Instrs {
+				switch x := in.(type) {
+				case *ssa.UnOp:
+					if x.Op == token.MUL {
+						if c, ok := varOf(x.X); ok && c == cell {
+							if why := check(x); why != "" {
+								return why
+							}
+						}
+					}
+				case *ssa.Store:
+					if c, ok := varOf(x.Addr); ok && c == cell {
+						switch originValue(x.Val).(type) {
+						case *ssa.MakeMap, *ssa.Const:
+						default:
+							if ld, isLd := x.Val.(*ssa.UnOp); isLd && ld.Op == token.MUL {
+								if c2, ok := varOf(ld.X); ok && c2 == cell {
+									continue
+								}
+							}
+							return "the memo variable is assigned a map made elsewhere"
+						}
+					}
+				}
+			}
+		}
+	}
+	return ""
+}
+
+// c08StopsOnFalse: cb is a func(...) bool literal handed to exactly one
+// enumeration call of its parent (outside any loop), and every function that
+// call may enter stops calling its callback once it returned false. Then a
+// `return false` of cb retires every memo local to the parent.
+func c08StopsOnFalse(cb *ssa.Function) (bool, string) {
+	parent := cb.Parent()
+	res := cb.Signature.Results()
+	if parent == nil || res.Len() != 1 || !c08IsBool(res.At(0).Type()) {
+		return false, "not a func(...) bool literal"
+	}
+	var site *ssa.Call
+	argIdx := -1
+	for _, b := range parent.Blocks {
+		for _, in := range b.Instrs {
+			if mc, ok := in.(*ssa.MakeClosure); ok && mc.Fn == cb {
+				continue
+			}
+			if _, ok := in.(*ssa.DebugRef); ok {
+				continue
+			}
+			for _, op := range in.Operands(nil) {
+				if *op == nil {
+					continue
+				}
+				isCb := *op == ssa.Value(cb)
+				if mc, ok := (*op).(*ssa.MakeClosure); ok && mc.Fn == cb {
+					isCb = true
+				}
+				if !isCb {
+					continue
+				}
+				call, ok := in.(*ssa.Call)
+				if !ok || site != nil {
+					return false, "the callback is used by more than one instruction or not by a plain call"
+				}
+				for i, a := range call.Call.Args {
+					if a == *op {
+						argIdx = i
+					}
+				}
+				if argIdx < 0 || call.Call.IsInvoke() {
+					return false, "the callback is not passed as an argument of a non-interface call"
+				}
+				site = call
+			}
+		}
+	}
+	if site == nil {
+		return false, "no call receives the callback"
+	}
+	if c08LoopDepth(site.Block()) > 0 {
+		return false, "the enumeration is started inside a loop"
+	}
+	// the functions the call may enter
+	var callees []*ssa.Function
+	var expand func(v ssa.Value, depth int) bool
+	expand = func(v ssa.Value, depth int) bool {
+		switch x := originValue(v).(type) {
+		case *ssa.Function:
+			callees = append(callees, x)
+			return true
+		case *ssa.MakeClosure:
+			callees = append(callees, x.Fn.(*ssa.Function))
+			return true
+		case *ssa.Phi:
+			if depth > 4 {
+				return false
+			}
+			for _, e := range x.Edges {
+				if !expand(e, depth+1) {
+					return false
+				}
+			}
+			return len(x.Edges) > 0
+		}
+		return false
+	}
+	if !expand(site.Call.Value, 0) {
+		return false, "the enumerator called with the callback cannot be resolved to functions"
+	}
+	for _, f := range callees {
+		idx := argIdx
+		for hop := 0; f.Synthetic != "" && hop < 3; hop++ { // bound-method / wrapper thunks
+			if idx >= len(f.Params) {
+				return false, "cannot follow wrapper " + f.Name()
+			}
+			var next *ssa.Function
+			nidx := -1
+			for _, c := range CallsIn(f, false) {
+				for i, a := range c.Common().Args {
+					if a == ssa.Value(f.Params[idx]) && c.Common().StaticCallee() != nil {
+						next, nidx = c.Common().StaticCallee(), i
+					}
+				}
+			}
+			if next == nil {
+				return false, "cannot follow wrapper " + f.Name()
+			}
+			f, idx = next, nidx
+		}
+		if f.Blocks == nil || idx >= len(f.Params) {
+			return false, "enumerator " + FuncKey(f) + " has no body to inspect"
+		}
+		prm := f.Params[idx]
+		var calls []*ssa.Call
+		if refs := prm.Referrers(); refs != nil {
+			for _, rf := range *refs {
+				switch x := rf.(type) {
+				case *ssa.DebugRef:
+				case *ssa.Call:
+					if x.Call.Value != ssa.Value(prm) {
+						return false, FuncKey(f) + " passes its callback on"
+					}
+					calls = append(calls, x)
+				default:
+					return false, FuncKey(f) + " does more with its callback than call it"
+				}
+			}
+		}
+		if len(calls) == 0 {
+			return false, FuncKey(f) + " never calls its callback directly"
+		}
+		hasCall := func(b *ssa.BasicBlock) bool {
+			for _, c := range calls {
+				if c.Block() == b {
+					return true
+				}
+			}
+			return false
+		}
+		for _, c := range calls {
+			refs := c.Referrers()
+			n := 0
+			if refs != nil {
+				for _, rf := range *refs {
+					if _, ok := rf.(*ssa.DebugRef); ok {
+						continue
+					}
+					n++
+					cond, neg := ssa.Value(c), false
+					var ifi *ssa.If
+					switch x := rf.(type) {
+					case *ssa.If:
+						ifi = x
+					case *ssa.UnOp:
+						if x.Op == token.NOT {
+							cond, neg = x, true
+							if rr := x.Referrers(); rr != nil {
+								for _, r2 := range nonDebug(*rr) {
+									if i2, ok := r2.(*ssa.If); ok && len(nonDebug(*rr)) == 1 {
+										ifi = i2
+									}
+								}
+							}
+						}
+					}
+					if ifi == nil || ifi.Cond != cond || len(ifi.Block().Succs) != 2 {
+						return false, FuncKey(f) + " does not branch directly on its callback's result"
+					}
+					onFalse := ifi.Block().Succs[1]
+					if neg {
+						onFalse = ifi.Block().Succs[0]
+					}
+					for b := range BlocksFrom(onFalse) {
+						if hasCall(b) {
+							return false, FuncKey(f) + " may call its callback again after it returned false"
+						}
+					}
+				}
+			}
+			if n == 0 {
+				return false, FuncKey(f) + " ignores its callback's result"
+			}
+		}
+	}
+	return true, ""
+}
+
+func c08RuleMemo(p *Program, r *Reporter) {
+	matchSig := c08MatchSig(p)
+	// anchors: the matcher entry points the memo rule is about
+	p.Func(c08Pkg, "Constraint", "matcher")
+	p.Func(c08Pkg, "RelationConstraint", "match")
+	fns := p.FuncsIn(c08Pkg)
+	r.Analysed("memo_functions", len(fns))
+	nOther, nValue := 0, 0
+	for _, fn := range fns {
+		if fn.Blocks == nil {
+			continue
+		}
+		guards, other := c08Guards(fn, matchSig)
+		nOther += other
+		perMap := map[string]int{}
+		for _, g := range guards {
+			site := p.Pos(g.lookup.Pos())
+			perMap[g.name]++
+			base := fmt.Sprintf("%s#memo(%s)", FuncKey(fn), g.name)
+			if n := perMap[g.name]; n > 1 {
+				base = fmt.Sprintf("%s/%d", base, n)
+			}
+			if len(g.bypassed) == 0 {
+				if !g.setLike || !c08MentionsBlobRef(g.lookup.Index.Type(), 0) {
+					nValue++
+					continue
+				}
+				// a set, but no matcher verdict is skipped on its key: classify, do not judge
+				marked := false
+				for b := range c08BlocksFromNotThrough(g.miss, g.ifi.Block()) {
+					for _, in := range b.Instrs {
+						if mu, ok := in.(*ssa.MapUpdate); ok {
+							if id, _, _ := c08MapID(mu.Map); id == g.id && originValue(mu.Key) == originValue(g.lookup.Index) {
+								marked = true
+							}
+						}
+					}
+				}
+				kind := "membership filter (the set is only read here; no work on the key is skipped because it was done before)"
+				if marked && g.foundLeave {
+					kind = "started/visited set (key absent: it is marked and the work on it is started right after; key present: leave) — marking before the work is what terminates the traversal"
+				}
+				r.OKTable("P-memo", base+"#class", site, "set membership test that bypasses no matcher call on its key: "+kind+"; not a memo of a completed evaluation, P-memo does not apply")
+				continue
+			}
+			var ev []string
+			for _, c := range g.bypassed {
+				ev = append(ev, c08CallDesc(c))
+			}
+			if !g.local {
+				r.Undecided("P-memo", base+"#guard", site, "a membership test on a map shared beyond one invocation ("+g.name+") bypasses the matcher call "+strings.Join(ev, ", ")+" on its key: this may be a visited-set that terminates a recursive traversal (mark before visiting is correct) or a memo of completed evaluations (mark only after); the rule cannot tell them apart for a shared map")
+				continue
+			}
+			if why := c08MapEscapes(g); why != "" {
+				r.Undecided("P-memo", base+"#guard", site, "skip guard on memo "+g.name+": "+why+"; the keys it may hold cannot be enumerated")
+				continue
+			}
+			marks, bad := c08Marks(g)
+			if bad != "" {
+				r.Undecided("P-memo", base+"#guard", site, "skip guard on memo "+g.name+": "+bad)
+				continue
+			}
+			r.OK("P-memo", base+"#guard", site, fmt.Sprintf("skip guard: a key found in local memo %s bypasses the matcher call %s on that key; %d assignment(s) can put a key into the memo, each checked as #mark", g.name, strings.Join(ev, ", "), len(marks)))
+			stops, whyNot := c08StopsOnFalse(fn)
+			// no other function of the family may consult the memo after a stop
+			if stops {
+				for _, f := range c08Family(fn) {
+					if f == fn {
+						continue
+					}
+					for _, b := range f.Blocks {
+						for _, in := range b.Instrs {
+							if lk, ok := in.(*ssa.Lookup); ok {
+								if id, _, _ := c08MapID(lk.X); id == g.id {
+									stops, whyNot = false, "the memo is also consulted in "+FuncKey(f)
+								}
+							}
+						}
+					}
+				}
+			}
+			nVia := map[string]int{}
+			for _, m := range marks {
+				via := m.via
+				if via == "" {
+					via = "direct"
+				}
+				nVia[via]++
+				c := fmt.Sprintf("%s#mark(%s)/%d", base, via, nVia[via])
+				msite := p.Pos(m.site.Pos())
+				if m.site.Parent() != fn {
+					r.Undecided("P-memo", c, msite, "a key is put into memo "+g.name+" from "+FuncKey(m.site.Parent())+", outside the function that evaluates and consults it; the rule cannot relate it to an evaluation")
+					continue
+				}
+				var evals []*ssa.Call
+				for _, cs := range CallsIn(fn, false) {
+					if c08VerdictOn(cs, m.key, matchSig, 0) {
+						evals = append(evals, cs.Value())
+					}
+				}
+				if len(evals) == 0 {
+					r.Undecided("P-memo", c, msite, "the value remembered in memo "+g.name+" ("+m.key.String()+") is not the blob any matcher call of this function evaluates: the guard would skip a key on the strength of work done for another value")
+					continue
+				}
+				dominated := false
+				for _, e := range evals {
+					if Precedes(e, m.site) && c08SuccessAt(e, m.site.Block()) {
+						dominated = true
+					}
+				}
+				if dominated {
+					r.OK("P-memo", c, msite, "the key is remembered only where the matcher call on that same key has returned without error (the assignment is dominated by the call's success edge)")
+					continue
+				}
+				done := func(in ssa.Instruction) bool {
+					for _, e := range evals {
+						if Precedes(e, in) && c08SuccessAt(e, in.Block()) {
+							return true
+						}
+					}
+					return false
+				}
+				leaks := LeakingExits(PathQuery{
+					Start: m.site,
+					Stop:  done,
+					ExitOK: func(exit ssa.Instruction) bool {
+						ret, ok := exit.(*ssa.Return)
+						if !ok || !stops || len(ret.Results) != 1 {
+							return false
+						}
+						cv, isC := c08ConstBool(originValue(ret.Results[0]))
+						return isC && !cv
+					},
+					IgnorePanics: true,
+				})
+				// a guard inside a loop is consulted again through the back edge, not only after an exit
+				again := c08LoopDepth(g.ifi.Block()) > 0 && ReachableFrom(m.site, done)[g.lookup]
+				if again {
+					r.Violation("P-memo", c, msite, "a key is remembered in skip-memo "+g.name+" at a point from which the loop can come round to the membership test again without the matcher having (successfully) run on that key: a later occurrence of the same key is skipped although it was never evaluated")
+					continue
+				}
+				if len(leaks) == 0 {
+					r.OK("P-memo", c, msite, "the key is remembered before its evaluation completed, but every path from there either completes the matcher call on that key without error or returns false, which ends the enumeration (verified in the enumerators) and with it the life of the memo")
+					continue
+				}
+				var via2 []string
+				for _, l := range leaks {
+					via2 = append(via2, "exit at "+p.Pos(l.Exit.Pos())+" via blocks "+blockNames(l.Via))
+				}
+				extra := ""
+				if !stops {
+					extra = " (returning false is not counted as ending the enumeration: " + whyNot + ")"
+				}
+				r.Violation("P-memo", c, msite, "a key is remembered in skip-memo "+g.name+" on a path where the matcher was not (successfully) run on it, and the callback then carries on: a later occurrence of the same key is skipped although it was never evaluated — with Any a matching relative is missed, with All a non-matching one is not seen"+extra+": "+strings.Join(via2, "; "))
+			}
+		}
+	}
+	r.Note("P-memo: %d other branches depend on a map look-up without being a membership test, %d membership tests (on value maps, or on sets not keyed by a blob ref) bypass no matcher call (value caches / look-ups / connection sets; not skip-memos)", nOther, nValue)
+	r.Floor("P-memo", 3)
+}
+
+// ---------------------------------------------------------------------------
 
 func runC08(p *Program, r *Reporter) {
 	pick := p.Func(c08Pkg, "SearchQuery", "pickCandidateSource")
@@ -1854,6 +2679,7 @@ func runC08(p *Program, r *Reporter) {
 	c08RulePredicates(p, r, preds)
 	c08RulePlanner(p, r, pick, predSet, sorts)
 	c08RuleNoDup(p, r)
+	c08RuleMemo(p, r)
 	execs := c08FindExec(p, r, pick)
 	if len(execs) == 0 {
 		r.Undecided("P-limit", FuncKey(pick)+"#executor", p.Pos(pick.Pos()), "no analysable caller of pickCandidateSource found")
